@@ -1,6 +1,8 @@
 """C17 — dynamic-network inference equals inference on the unrolled network."""
 from __future__ import annotations
 
+import math
+
 from fractions import Fraction
 
 from harness import core, gen
@@ -105,6 +107,8 @@ def gen_query(rng, tier):
     tm = gen_template(rng)
     k = tm["k"]
     T = rng.randint(0, 3)
+    while T > 1 and math.prod(tm["card"]) ** (T + 1) > 20000:
+        T -= 1
     allnodes = [(v, t) for v in range(k) for t in range(T + 1)]
     q = rng.sample(allnodes, rng.randint(1, min(2, len(allnodes))))
     if not any(t == T for _, t in q):
@@ -166,6 +170,8 @@ def gen_history(rng, tier):
     k = tm["k"]
     iface = {u for u, _ in tm["inter"]}
     T = rng.randint(1, 3)
+    while T > 1 and math.prod(tm["card"]) ** (T + 1) > 7000:      # the specification enumerates the unrolled joint exactly
+        T -= 1
     allnodes = [(v, t) for v in range(k) for t in range(T + 1)]
     free = [x for x in allnodes if x[0] not in iface]
     steps = []
